@@ -636,7 +636,7 @@ pub fn case(cfg: &CaseCfg) -> BoxedStrategy<Case> {
           }
         }
       }
-      Case { root, hots: kinds, hot_illformed: cfg.gen.ill_formed, conn: None, recorders, actions }
+      Case { root, hots: kinds, hot_illformed: cfg.gen.ill_formed, conn: None, conn_take: None, recorders, actions }
     })
     .boxed()
 }
